@@ -81,7 +81,16 @@ pub enum G {
     /// instead of then_with_ctx, bit2 = `just(a).repeated().configure(exactly = sym(t) % 3)` instead
     /// of `just(_).configure(seq = t)`
     CtxPair(u8),
+    /// chumsky::text parsers and regex — StrInput kinds only (k >= 9: regex, needs a borrowed slice type):
+    /// 0 ascii::ident, 1 unicode::ident, 2 int(10), 3 int(16), 4 digits(10).to_slice(), 5 whitespace().at_least(1),
+    /// 6 inline_whitespace().at_least(1), 7 newline(), 8 whitespace() (may match nothing),
+    /// 9 regex("[a-c]+[07]*"), 10 regex("[^ \n0]+")
+    Text(u8),
+    /// a.padded() — InputRef::skip_while on every ValueInput kind whose tokens are characters
+    Padded(Box<G>),
 }
+
+pub const N_TEXT: u8 = 11;
 
 #[derive(Clone, Debug)]
 pub struct GenCfg {
@@ -101,6 +110,11 @@ pub struct GenCfg {
     pub allow_slice: bool,
     pub allow_borrow: bool,
     pub allow_exact: bool,
+    /// text parsers (StrInput kinds only), regex (StrInput kinds with a borrowed slice), padded()
+    #[allow(dead_code)]
+    pub allow_text: bool,
+    pub allow_regex: bool,
+    pub allow_pad: bool,
     /// Swarm mask over combinator families (bit i set = family i enabled in this case).
     pub mask: u64,
 }
@@ -122,6 +136,9 @@ impl GenCfg {
             allow_slice: false,
             allow_borrow: false,
             allow_exact: false,
+            allow_text: false,
+            allow_regex: false,
+            allow_pad: false,
             // each family is on with probability ~3/4
             mask: rng.next_u64() | rng.next_u64(),
         }
@@ -151,6 +168,14 @@ impl<'r> Gen<'r> {
     }
     fn leaf(&mut self, consuming: bool) -> G {
         loop {
+            if self.cfg.allow_text && self.rng.chance(1, 3) {
+                let top = if self.cfg.allow_regex { N_TEXT } else { 9 };
+                let k = self.rng.below(top as u64) as u8;
+                if k == 8 && consuming {
+                    continue;
+                }
+                return G::Text(k);
+            }
             let k = self.rng.below(if self.cfg.allow_borrow || self.cfg.allow_exact || self.cfg.allow_slice { 16 } else { 12 });
             let g = match k {
                 12 | 13 if self.cfg.allow_borrow => G::AnyRef,
@@ -219,8 +244,9 @@ impl<'r> Gen<'r> {
         }
         self.left -= 1;
         for _ in 0..40 {
-            let k = self.rng.below(40);
+            let k = self.rng.below(42);
             let g = match k {
+                40..=41 if self.cfg.allow_pad && self.cfg.value_prims => G::Padded(self.bx(d + 1, consuming)),
                 0..=2 => return self.leaf(consuming),
                 3..=5 if self.fam(0) => {
                     // one side must consume when required
@@ -379,6 +405,7 @@ pub fn nullable(g: &G) -> bool {
     use G::*;
     match g {
         Just(_) | Any | OneOf(_) | NoneOf(_) | Select(_) | Custom(..) | AnyRef | SelectRef(_) | CustomApi(..) | CtxPair(_) => false,
+        Text(k) => *k == 8,
         JustSeq(v) => v.is_empty(),
         End | Empty | SpanFrom | SliceFrom => true,
         Then(a, b) | IgnoreThen(a, b) | ThenIgnore(a, b) => nullable(a) && nullable(b),
@@ -393,7 +420,7 @@ pub fn nullable(g: &G) -> bool {
         Foldl(a, _) => nullable(a),
         Foldr(_, b) => nullable(b),
         MapSpan(a) | ToSpan(a) | StateProbe(a) | Filter(a, _) | TryMap(a, _) | Validate(a, _) | Labelled(a, ..) | Memo(a) | Ignored(a)
-        | To(a, _) | Lazy(a) | Slice(a) => nullable(a),
+        | To(a, _) | Lazy(a) | Slice(a) | Padded(a) => nullable(a),
         Recover(a, s) => {
             nullable(a)
                 || match s {
@@ -434,7 +461,7 @@ pub fn fixup(g: &mut G, nsym: u8) {
         }
         Choice(v) => v.iter_mut().for_each(|x| fixup(x, nsym)),
         OrNot(a) | Not(a) | Rewind(a) | MapSpan(a) | ToSpan(a) | StateProbe(a) | Filter(a, _) | TryMap(a, _) | Validate(a, _)
-        | Labelled(a, ..) | Memo(a) | Ignored(a) | To(a, _) | Lazy(a) | Slice(a) => fixup(a, nsym),
+        | Labelled(a, ..) | Memo(a) | Ignored(a) | To(a, _) | Lazy(a) | Slice(a) | Padded(a) => fixup(a, nsym),
         Rep { item, min, max, .. } => {
             fixup(item, nsym);
             guard(item, nsym);
@@ -494,14 +521,14 @@ fn leftmost_recref(g: &G) -> bool {
     use G::*;
     match g {
         RecRef => true,
-        Just(_) | JustSeq(_) | Any | OneOf(_) | NoneOf(_) | Select(_) | Custom(..) | End | Empty | AnyRef | SelectRef(_) | SpanFrom | SliceFrom | CustomApi(..) | CtxPair(_) => false,
+        Just(_) | JustSeq(_) | Any | OneOf(_) | NoneOf(_) | Select(_) | Custom(..) | End | Empty | AnyRef | SelectRef(_) | SpanFrom | SliceFrom | CustomApi(..) | CtxPair(_) | Text(_) => false,
         Then(a, b) | IgnoreThen(a, b) | ThenIgnore(a, b) => leftmost_recref(a) || (nullable(a) && leftmost_recref(b)),
         Delim(i, o, c) => leftmost_recref(o) || (nullable(o) && (leftmost_recref(i) || (nullable(i) && leftmost_recref(c)))),
         PaddedBy(a, p) => leftmost_recref(p) || (nullable(p) && leftmost_recref(a)) || (nullable(p) && nullable(a) && leftmost_recref(p)),
         Or(a, b) | AndIs(a, b) => leftmost_recref(a) || leftmost_recref(b),
         Choice(v) => v.iter().any(leftmost_recref),
         OrNot(a) | Not(a) | Rewind(a) | MapSpan(a) | ToSpan(a) | StateProbe(a) | Filter(a, _) | TryMap(a, _) | Validate(a, _)
-        | Labelled(a, ..) | Memo(a) | Ignored(a) | To(a, _) | Lazy(a) | Rec(a) | Slice(a) => leftmost_recref(a),
+        | Labelled(a, ..) | Memo(a) | Ignored(a) | To(a, _) | Lazy(a) | Rec(a) | Slice(a) | Padded(a) => leftmost_recref(a),
         Rep { item, .. } => leftmost_recref(item),
         Sep { item, sep, lead, .. } => leftmost_recref(item) || (*lead && leftmost_recref(sep)),
         Foldl(a, item) => leftmost_recref(a) || (nullable(a) && leftmost_recref(item)),
@@ -524,7 +551,7 @@ pub fn children(g: &G) -> Vec<&G> {
         Delim(a, b, c) => vec![a, b, c],
         Choice(v) => v.iter().collect(),
         OrNot(a) | Not(a) | Rewind(a) | MapSpan(a) | ToSpan(a) | StateProbe(a) | Filter(a, _) | TryMap(a, _) | Validate(a, _)
-        | Labelled(a, ..) | Memo(a) | Ignored(a) | To(a, _) | Lazy(a) | Rec(a) | Slice(a) => vec![a],
+        | Labelled(a, ..) | Memo(a) | Ignored(a) | To(a, _) | Lazy(a) | Rec(a) | Slice(a) | Padded(a) => vec![a],
         Rep { item, .. } => vec![item],
         Sep { item, sep, .. } => vec![item, sep],
         Recover(a, s) => match s {
@@ -543,7 +570,7 @@ pub fn children_mut(g: &mut G) -> Vec<&mut G> {
         Delim(a, b, c) => vec![a, b, c],
         Choice(v) => v.iter_mut().collect(),
         OrNot(a) | Not(a) | Rewind(a) | MapSpan(a) | ToSpan(a) | StateProbe(a) | Filter(a, _) | TryMap(a, _) | Validate(a, _)
-        | Labelled(a, ..) | Memo(a) | Ignored(a) | To(a, _) | Lazy(a) | Rec(a) | Slice(a) => vec![a],
+        | Labelled(a, ..) | Memo(a) | Ignored(a) | To(a, _) | Lazy(a) | Rec(a) | Slice(a) | Padded(a) => vec![a],
         Rep { item, .. } => vec![item],
         Sep { item, sep, .. } => vec![item, sep],
         Recover(a, s) => match s {
@@ -566,7 +593,7 @@ pub fn contains(g: &G, f: &dyn Fn(&G) -> bool) -> bool {
 /// Does the grammar need ValueInput (any/one_of/none_of/select!/nested_delimiters)?
 pub fn needs_value_input(g: &G) -> bool {
     contains(g, &|x| {
-        matches!(x, G::Any | G::CtxPair(_) | G::OneOf(_) | G::NoneOf(_) | G::Select(_) | G::Not(_) | G::Lazy(_) | G::Slice(_) | G::AnyRef | G::SelectRef(_) | G::SpanFrom | G::SliceFrom) || matches!(x, G::Recover(_, Strat::Nested(..)))
+        matches!(x, G::Any | G::CtxPair(_) | G::OneOf(_) | G::NoneOf(_) | G::Select(_) | G::Not(_) | G::Lazy(_) | G::Slice(_) | G::AnyRef | G::SelectRef(_) | G::SpanFrom | G::SliceFrom | G::Text(_) | G::Padded(_)) || matches!(x, G::Recover(_, Strat::Nested(..)))
     })
 }
 
@@ -584,10 +611,10 @@ pub fn well_scoped(g: &G, in_rec: bool) -> bool {
 pub fn sexpr(g: &G) -> String {
     use G::*;
     fn syms(v: &[u8]) -> String {
-        v.iter().map(|s| (b'a' + s) as char).collect()
+        v.iter().map(|s| crate::tok::sym_char(*s)).collect()
     }
     fn c(s: u8) -> char {
-        (b'a' + s) as char
+        crate::tok::sym_char(s)
     }
     fn bounds(min: u32, max: Option<u32>) -> String {
         match max {
@@ -655,6 +682,8 @@ pub fn sexpr(g: &G) -> String {
         SliceFrom => "slice_from".into(),
         CtxPair(f) => format!("ctx_pair#{}", f),
         CustomApi(k, a) => format!("custom_api#{}({})", k, c(*a)),
+        Text(k) => format!("text#{}", ["ascii_ident", "unicode_ident", "int10", "int16", "digits10", "ws1", "inline_ws1", "newline", "ws0", "regex0", "regex1"].get(*k as usize).copied().unwrap_or("?")),
+        Padded(a) => format!("(padded {})", sexpr(a)),
     }
 }
 
@@ -703,6 +732,55 @@ pub fn sample(g: &G, rng: &mut Rng, nsym: u8, out: &mut Vec<u8>, fuel: &mut i64,
             }
         }
         End | Empty | Not(_) | Rewind(_) | SpanFrom | SliceFrom => {}
+        Text(k) => {
+            let some = |set: &[u8], lo: u64, hi: u64, rng: &mut Rng, out: &mut Vec<u8>| {
+                for _ in 0..rng.range(lo, hi) {
+                    out.push(*rng.pick(set));
+                }
+            };
+            match k {
+                0 | 1 => {
+                    some(&[0, 2, 4, 6, 13, 1, 3], 1, 1, rng, out);
+                    some(&[0, 1, 2, 3, 4, 6, 7, 11, 12, 13], 0, 4, rng, out);
+                }
+                2 => {
+                    if rng.chance(1, 4) {
+                        out.push(11);
+                    } else {
+                        out.push(12);
+                        some(&[11, 12], 0, 3, rng, out);
+                    }
+                }
+                3 => {
+                    some(&[12, 0, 2, 4], 1, 1, rng, out);
+                    some(&[11, 12, 0, 1, 2, 3, 4, 5], 0, 3, rng, out);
+                }
+                4 => some(&[11, 12], 1, 4, rng, out),
+                5 => some(&[8, 9, 10, 14, 15], 1, 3, rng, out),
+                6 => some(&[8, 14], 1, 3, rng, out),
+                7 => match rng.below(4) {
+                    0 => out.push(9),
+                    1 => out.extend_from_slice(&[10, 9]),
+                    2 => out.push(10),
+                    _ => out.push(*rng.pick(&[14u8, 15])),
+                },
+                8 => some(&[8, 9, 10, 14], 0, 3, rng, out),
+                9 => {
+                    some(&[0, 2, 4, 1], 1, 3, rng, out);
+                    some(&[11, 12], 0, 2, rng, out);
+                }
+                _ => some(&[0, 1, 2, 3, 4, 5, 6, 7, 10, 12, 13, 14, 15], 1, 4, rng, out),
+            }
+        }
+        Padded(a) => {
+            for _ in 0..rng.below(3) {
+                out.push(*rng.pick(&[8u8, 9, 10, 14]));
+            }
+            sample(a, rng, nsym, out, fuel, rec);
+            for _ in 0..rng.below(3) {
+                out.push(*rng.pick(&[8u8, 9, 10, 14]));
+            }
+        }
         Then(a, b) | IgnoreThen(a, b) | ThenIgnore(a, b) => {
             sample(a, rng, nsym, out, fuel, rec);
             sample(b, rng, nsym, out, fuel, rec);
@@ -847,12 +925,34 @@ pub fn gen_input(g: &G, rng: &mut Rng, nsym: u8, max_len: usize) -> Vec<u8> {
 }
 
 pub fn show_input(v: &[u8]) -> String {
-    v.iter().map(|s| (b'a' + s) as char).collect()
+    v.iter().map(|s| crate::tok::sym_char(*s)).collect()
 }
 
-/// Capabilities a grammar needs from its input kind: (SliceInput, BorrowInput, ExactSizeInput).
-pub fn needs_caps(g: &G) -> (bool, bool, bool) {
-    (contains(g, &|x| matches!(x, G::Slice(_) | G::SliceFrom)), contains(g, &|x| matches!(x, G::AnyRef | G::SelectRef(_))), contains(g, &|x| matches!(x, G::SpanFrom)))
+/// Capabilities a grammar needs from / an input kind offers: SliceInput, BorrowInput, ExactSizeInput (with
+/// index re-basing), StrInput, StrInput with a borrowed slice type (regex).
+#[derive(Clone, Copy, Debug, Default, PartialEq, Eq)]
+pub struct Need {
+    pub slice: bool,
+    pub borrow: bool,
+    pub exact: bool,
+    pub strin: bool,
+    pub regex: bool,
+}
+
+impl Need {
+    pub fn satisfied_by(&self, have: &Need) -> bool {
+        (!self.slice || have.slice) && (!self.borrow || have.borrow) && (!self.exact || have.exact) && (!self.strin || have.strin) && (!self.regex || have.regex)
+    }
+}
+
+pub fn needs_caps(g: &G) -> Need {
+    Need {
+        slice: contains(g, &|x| matches!(x, G::Slice(_) | G::SliceFrom)),
+        borrow: contains(g, &|x| matches!(x, G::AnyRef | G::SelectRef(_))),
+        exact: contains(g, &|x| matches!(x, G::SpanFrom)),
+        strin: contains(g, &|x| matches!(x, G::Text(_))),
+        regex: contains(g, &|x| matches!(x, G::Text(k) if *k >= 9)),
+    }
 }
 
 /// The sync builder (`&dyn Parser` at every node) has no Rec / nested_delimiters: replace them by
